@@ -37,6 +37,10 @@ P = {
              theorems=['C08_iter_each_once', 'C08_exact_len', 'C08_keys_values_same_order', 'C08_drain', 'C08_into_iter']),
  'C09': dict(families=[('iter', 200, 3000, 120), ('mixed', 60, 1000, 120)], aspects='RSDK', profiles=['debug'],
              theorems=['C09_retain', 'C09_drain_filter', 'C09_panicking_predicate_keeps_invariant']),
+ 'C11': dict(families=[('clone', 200, 3000, 120), ('mixed', 60, 1000, 120)], aspects='RSDK', profiles=['debug', 'release'],
+             theorems=['C11_clone', 'C11_clone_from', 'C11_independent']),
+ 'C14': dict(families=[('clone', 150, 2500, 120), ('mixed', 80, 1200, 120), ('iter', 50, 800, 120)], aspects='RD', profiles=['debug'],
+             theorems=['C14_eq_iff', 'C14_eq_is_equivalence', 'C14_eq_false_when_differing', 'C14_lookup_by_contents', 'C14_iteration_by_contents']),
  'C10': dict(families=[('capacity', 200, 3000, 120), ('mixed', 60, 1000, 120)], aspects='RSA', profiles=['debug', 'release'],
              theorems=['C10_with_capacity', 'C10_reserve', 'C10_reserved_inserts', 'C10_try_reserve_err', 'C10_reserve_panic', 'C10_never_silent', 'C10_shrink']),
  'C05': dict(families=[('mixed', 120, 2000, 120), ('entry', 80, 1500, 120), ('iter', 80, 1500, 120)], aspects='RS', profiles=['debug', 'release'],
